@@ -48,7 +48,8 @@ def main():
         for i in range(start, len(cases)):
             sys.stderr.write("@@CASE %d\n" % i)
             sys.stderr.flush()
-            tmp = tempfile.mkdtemp(prefix="verif-C12rt-", dir="/tmp")
+            # under the check's own scratch directory (removed by ctx.finish even when this process is killed)
+            tmp = tempfile.mkdtemp(prefix="rt-", dir=os.path.dirname(os.path.abspath(cases_p)))
             try:
                 try:
                     r = run(cases[i], tmp)
